@@ -13,6 +13,13 @@ def okindOf : String → Option OKind
   | "sg" => some .syncGauge
   | _ => none
 
+/-- a kind token with the suffix `d` is the double flavour of the instrument (same model: a value is the measurement in
+    units of 2^-10); `(kind, double?)` -/
+def okindFlavour (s : String) : Option (OKind × Bool) :=
+  match okindOf s with
+  | some k => some (k, false)
+  | none => if s.length = 3 ∧ s.endsWith "d" then (okindOf (s.take 2).toString).map (·, true) else none
+
 def okindCode : OKind → String
   | .counter => "oc"
   | .updown => "ou"
@@ -48,52 +55,77 @@ def parseScript : List String → Option (List (Nat × List (Nat × Int)))
       if cb ≥ 8 ∨ rest.any (·.1 == cb) then none else pure ((cb, obs) :: rest)
     | _ => none
 
-/-- `dead`: instruments whose handle was released (`destroy`): nothing can be done through a released handle -/
-def stepOp (c : Cfg) (m : AMeter) (dead : List Nat) : List String → Option (AMeter × String)
+/-- the handles of the case: handle h stands for model instrument `inst h` (a `create` makes a new one, a `dup` is a further
+    handle for the instrument of an existing handle: same name, type and value type, hence - `Meter::RegisterAsyncMetricStorage` -
+    the same storage); `dbl h`: the double flavour; `dead`: handles that were released.  A callback registration is identified in
+    the code by (callback, state, instrument *handle*): registration `cb` through handle `h` is the model's callback `8 h + cb`
+    on instrument `inst h`. -/
+structure Handles where
+  inst : List Nat
+  dbl : List Bool
+  dead : List Nat
+
+def Handles.first (hs : Handles) (i : Nat) : Nat := (hs.inst.findIdx? (· == i)).getD 0
+def Handles.live (hs : Handles) (i : Nat) : List Nat :=
+  (List.range hs.inst.length).filter fun h => hs.inst.getD h 0 == i && !hs.dead.contains h
+
+def stepOp (c : Cfg) (m : AMeter) (hs : Handles) : List String → Option (AMeter × Handles × String)
   | ["create", k] => do
-    let k ← okindOf k
-    pure (amstep c m (.create k), s!"i{m.kinds.length}")
-  | ["addcb", i, cb] => do
-    let i ← i.toNat?
+    let k ← okindFlavour k
+    pure (amstep c m (.create k.1), { hs with inst := hs.inst ++ [m.kinds.length], dbl := hs.dbl ++ [k.2] }, s!"i{hs.inst.length}")
+  | ["dup", h] => do
+    let h ← h.toNat?
+    let i ← hs.inst[h]?
+    let k ← m.kinds[i]?
+    if k = .syncGauge ∨ hs.dead.contains h then none else
+    pure (m, { hs with inst := hs.inst ++ [i], dbl := hs.dbl ++ [hs.dbl.getD h false] }, s!"i{hs.inst.length}")
+  | ["addcb", h, cb] => do
+    let h ← h.toNat?
     let cb ← cb.toNat?
+    let i ← hs.inst[h]?
     let k ← m.kinds[i]?
-    if k = .syncGauge ∨ cb ≥ 8 ∨ dead.contains i then none else pure (amstep c m (.addcb i cb), "ok")
-  | ["rmcb", i, cb] => do
-    let i ← i.toNat?
+    if k = .syncGauge ∨ cb ≥ 8 ∨ hs.dead.contains h then none else pure (amstep c m (.addcb i (8 * h + cb)), hs, "ok")
+  | ["rmcb", h, cb] => do
+    let h ← h.toNat?
     let cb ← cb.toNat?
+    let i ← hs.inst[h]?
     let k ← m.kinds[i]?
-    if k = .syncGauge ∨ cb ≥ 8 ∨ dead.contains i then none else pure (amstep c m (.rmcb i cb), "ok")
-  | ["destroy", i] => do
-    let i ← i.toNat?
+    if k = .syncGauge ∨ cb ≥ 8 ∨ hs.dead.contains h then none else pure (amstep c m (.rmcb i (8 * h + cb)), hs, "ok")
+  | ["destroy", h] => do
+    let h ← h.toNat?
+    let i ← hs.inst[h]?
     let k ← m.kinds[i]?
-    if k = .syncGauge then none else pure (amstep c m (.destroy i), "ok")
-  | ["grec", i, a, v] => do
-    let i ← i.toNat?
+    if k = .syncGauge then none else
+    -- the last live handle of the instrument: `CleanupCallback` erases every record of the instrument; otherwise the records
+    -- registered through this handle go, those of the other handles stay
+    let m' := if (hs.live i).all (· == h) then amstep c m (.destroy i)
+              else (List.range 8).foldl (fun m cb => amstep c m (.rmcb i (8 * h + cb))) m
+    pure (m', { hs with dead := h :: hs.dead }, "ok")
+  | ["grec", h, a, v] => do
+    let h ← h.toNat?
     let a ← a.toNat?
     let v ← v.toInt?
+    let i ← hs.inst[h]?
     let k ← m.kinds[i]?
-    if k ≠ .syncGauge ∨ a ≥ 16 ∨ v.natAbs > 1099511627776 then none else pure (amstep c m (.grec i a v), "ok")
+    if k ≠ .syncGauge ∨ a ≥ 16 ∨ v.natAbs > 1099511627776 then none else pure (amstep c m (.grec i a v), hs, "ok")
   | "collect" :: r :: script => do
     let r ← r.toNat?
     let sc ← parseScript script
     if r ≥ c.n then none else
-    let res := amcollect c m r (fun cb => (sc.lookup cb).getD [])
+    let res := amcollect c m r (fun cb => (sc.lookup (cb % 8)).getD [])
     let outs := (List.range m.kinds.length).filterMap fun i =>
-      (res.2.2 i).map fun o => showOut s!"{i}.{okindCode (m.kinds.getD i .counter)}" o
-    pure (res.1, "calls=[" ++ ",".intercalate (res.2.1.map toString) ++ "] [" ++
+      let h := hs.first i
+      (res.2.2 i).map fun o => showOut s!"{h}.{okindCode (m.kinds.getD i .counter)}{if hs.dbl.getD h false then "d" else ""}" o
+    pure (res.1, hs, "calls=[" ++ ",".intercalate (res.2.1.map fun cb => toString (cb % 8)) ++ "] [" ++
       " | ".intercalate (C06.sortBy (fun (a b : String) => a < b) outs) ++ "]")
   | _ => none
 
-def run (c : Cfg) : AMeter → List Nat → List (List String) → List String → Option (List String)
+def run (c : Cfg) : AMeter → Handles → List (List String) → List String → Option (List String)
   | _, _, [], acc => some acc.reverse
-  | m, dead, op :: ops, acc =>
-    match stepOp c m dead op with
+  | m, hs, op :: ops, acc =>
+    match stepOp c m hs op with
     | none => none
-    | some (m', o) =>
-      let dead' := match op with
-        | ["destroy", i] => (i.toNat?.getD 0) :: dead
-        | _ => dead
-      run c m' dead' ops (o :: acc)
+    | some (m', hs', o) => run c m' hs' ops (o :: acc)
 
 def handle (toks : List String) : String :=
   match splitOps toks with
@@ -102,7 +134,7 @@ def handle (toks : List String) : String :=
     | none => "bad-op"
     | some temps =>
       if temps.length = 0 ∨ temps.length > 4 then "bad-op" else
-      match run ⟨temps⟩ AMeter.init [] ops ["ok"] with
+      match run ⟨temps⟩ AMeter.init ⟨[], [], []⟩ ops ["ok"] with
       | none => "bad-op"
       | some outs => " ; ".intercalate outs
   | _ => "bad-op"
